@@ -13,7 +13,7 @@ E4 = 'E4 controlled scheduler on overlay-instrumented source + footprint oracles
 # id -> (engine, category, technique, level text, level note, design ref)
 def e1(what, space, oracle, rest=''):
     return (E1, 'exploration', 'bounded-exhaustive input enumeration vs independent reference (' + what + ')',
-            'Every member of a declared finite input space (' + space + ') is executed on the real functions and compared with ' + oracle + '. Complete below the stated bounds, nothing sampled; the evidence carries the enumerated count next to the closed-form cardinality of the declared space. Right level: the code is short word arithmetic whose case splits are driven by small quantities that the bounds cover several times over.' + rest,
+            'Every member of a declared finite input space (' + space + ') is executed on the real functions and compared with ' + oracle + '. Complete below the stated bounds, nothing sampled; the evidence carries the enumerated count next to the closed-form cardinality of the declared space. Next to the small complete spaces every check has families for what a change may key on: lengths at every round-number threshold, integer extremes of unbounded parameters, slice arguments with dirty spare capacity, and the whole quick tier once more as a GOARCH=386 binary (C04, C05, C10, C11 also as a -tags debug binary). Right level: the code is short word arithmetic whose case splits are driven by small quantities that the bounds cover several times over.' + rest,
             'Trusted: the reference model, the Go toolchain. Not covered: inputs outside the declared alphabets/bounds (DESIGN.md section 7).')
 
 CHECKS = {
@@ -39,13 +39,13 @@ CHECKS = {
             'For 10 sections every cursor state reachable inside a window is expanded with every operation of the alphabet (Write/WriteAt with buffers 0..6, Seek with every whence/offset) x every answer of the underlying writer (full, short with error, short without error), executed on a real SectionWriter and compared with the statement\'s cursor model: return values, exact (offset, bytes) calls received, containment, cursor afterwards, Size. All sequences of depth <=3 (thorough 4) over a reduced alphabet run without state merging - alone, with a bystander SectionWriter operated between the steps, over a stacked SectionWriter and over an *os.File; AtToWriter runs every sequence of <=3 Writes.',
             'Trusted: the cursor model. Cursors beyond the window are executed once but not expanded.', 'DESIGN.md section 4 C18'),
     'C06': (E3, 'model_checking', 'stateless deviation-bounded DFS over the choices of a scripted io.Reader (all chunkings with <=B deviations) on real Marshal/Unmarshal',
-            'Every frame of a message-kind x payload-length x version alphabet is marshalled and checked byte for byte against an independently built header+encoding; every stream of 1..3 frames over a 6-frame alphabet is read back under every reader chunking with <=1 (thorough 2) deviations from "as much as asked" (short read at any byte, data together with io.EOF, one empty read) and every uniform chunk size, through 11 standard-library reader types and 4 writer types, and (a frame above 1 MiB followed by others) under forced short reads around every boundary. Each execution runs the real code to completion; states = choice-tree nodes, transitions = reader answers.',
+            'Every frame of a message-kind x payload-length x version alphabet is marshalled and checked byte for byte against an independently built header+encoding; every stream of 1..3 frames over a 6-frame alphabet is read back under every reader chunking with <=1 (thorough 2) deviations from "as much as asked" (short read at any byte, data together with io.EOF, one empty read) and every uniform chunk size, through 11 standard-library reader types and 4 writer types, and (a frame above 1 MiB followed by others) under forced short reads around every boundary. Each execution runs the real code to completion; states = choice-tree nodes, transitions = reader answers. A scheduled part (the controlled scheduler of C19 on the automatically instrumented pbcmpl package) runs every pair of {Marshal, Unmarshal} x 7 frames as a 2-thread program under every schedule with <=2 (thorough 3) preemptions; callers share nothing, each thread must meet its per-frame obligations as when it runs alone. The whole quick tier is repeated as a GOARCH=386 binary.',
             'Trusted: hand-built expected wire bytes. Readers respect the io contract apart from the listed deviations.', 'DESIGN.md section 4 C06'),
     'C07': (E3, 'fault_enumeration', 'exhaustive enumeration of cut points, writer byte budgets, read-error offsets and a header-field alphabet (corrupt headers in a memory-limited worker process)',
             'Every cut point of every frame of a 40-frame alphabet x chunkings; every writer byte budget x 2 failure modes; a read error at every offset alone/together with data; a header-size x body-size x version x available-bytes alphabet (body sizes to 2^64-1) executed in a child process under ulimit -v so that a fatal out-of-memory is observed as a dead worker; ReadHeader on every prefix of arbitrary bytes. Expected counts and error causes come from the statement.',
             'Trusted: the scripted reader/writer. Only the listed fault shapes are injected.', 'DESIGN.md section 4 C07'),
     'C19': (E4, 'model_checking', 'preemption-bounded exhaustive schedule exploration (controlled scheduler on automatically instrumented source) + exact argument write-footprint and package-state snapshot oracles',
-            'Every unordered pair of a 43-entry function alphabet (and every triple of a 16-entry sub-alphabet) runs as a 2-/3-thread program on shared inputs under a cooperative scheduler; scheduling points are inserted by a source-to-source instrumenter, regenerated from the working tree on every run, before every statement touching package-level state, a receiver or an alias; all schedules with <=2 (thorough 3) preemptions are executed on the real code and each must reproduce the sequential results with the package state unchanged. Net effects are decided without scheduling: every call x parameter grid x 4 input sets runs with all arguments in read-only mmap memory (any store faults), the deep hash of every package-level variable must not change after a full warm-up, results must not depend on call order, and every value returned during a pass is re-read at its end (a later call must not modify memory the library handed out). A free-running -race pass of the same bodies is a reported supplement.',
+            'Every unordered pair of a 52-entry function alphabet (and every triple of a 16-entry sub-alphabet) runs as a 2-/3-thread program on shared inputs under a cooperative scheduler; scheduling points are inserted by a source-to-source instrumenter, regenerated from the working tree on every run, before every statement touching package-level state, a receiver or an alias; all schedules with <=2 (thorough 3) preemptions are executed on the real code and each must reproduce the sequential results with the package state unchanged. Net effects are decided without scheduling: every call x parameter grid x 4 input sets runs with all arguments in read-only mmap memory (any store faults), the deep hash of every package-level variable must not change after a full warm-up, results must not depend on call order, and every value returned during a pass is re-read at its end (a later call must not modify memory the library handed out). Further oracles around one call: one element appended to / every element overwritten in every returned slice, every argument buffer overwritten after the call, every argument in a mapping of its own ending at (and once more: starting after) an inaccessible page; a cold-start exploration runs every schedule of every same-function pair in a fresh process. A free-running -race pass of the same bodies is a reported supplement.',
             'Trusted: the instrumenter placing points at all shared-state accesses (syntactic, liberal), sequentially consistent memory at statement granularity. Races on memory the instrumenter does not see are left to the footprint oracle and the sampling race pass.', 'DESIGN.md section 4 C19'),
 }
 
